@@ -1,6 +1,7 @@
 From Coq Require Import ZArith NArith List.
 From PSO Require Import Raft.Types Raft.Node Raft.Net Raft.Obs.
 From PSO Require Import Raft.ProofsElectionGhost Raft.ProofsElectionMain Raft.ProofsElectionC07.
+From PSO Require Import Raft.ProofsElectionDump.
 Import ListNotations.
 Open Scope N_scope.
 
@@ -57,3 +58,14 @@ Theorem C07_follows_older_term_refuted :
     In (Send 1 (NextIdx tl 3 false true)) (outs s).
 Proof. exact follows_older_term_refuted. Qed.
 Print Assumptions C07_follows_older_term_refuted.
+
+(* with a dump file configured: file_dump c = false replaced by the run-level condition dump_ok
+   (on every ETick, a node about to load its dump file has nothing stored; see Props/C03.v) *)
+Theorem C07_no_restart_vote_once_dump :
+  forall (c : conf) (V : list nid) (evs : list event) (g : gstate),
+    dyn c = false -> dump_ok c ginit evs = true -> valid V evs = true ->
+    run_trace c ginit evs = Some g ->
+    exists gh, grun c ginit gh0 evs = Some (g, gh) /\
+      forall t v c1 c2, In (t, v, c1) (grants gh) -> In (t, v, c2) (grants gh) -> c1 = c2.
+Proof. exact vote_once_run_dump. Qed.
+Print Assumptions C07_no_restart_vote_once_dump.
